@@ -160,6 +160,9 @@ func (w *growWriter) Reserve(n int) {
 }
 func (w *growWriter) Commit() {}
 
+// c12OnHang is set by TestC12: a RunUntil that does not come back ends the check at once with a violation.
+var c12OnHang func(c c12RunCase, err error)
+
 func c12RunCheck(c c12RunCase) error {
 	twin, _ := cpus()
 	sys, scpu := c12System()
@@ -237,8 +240,19 @@ func c12RunCheck(c c12RunCase) error {
 			sys.CPU.OnPC[w] = func() { gotWarm[w]++ }
 		}
 		sys.Logger = nil
-		if p := rig.Safe(func() error { sys.RunUntil(c.Target, 1); return nil }); p != nil {
-			return fmt.Errorf("warm-up RunUntil($%06X, 1) panicked: %v", c.Target, p)
+		warmDone := make(chan error, 1)
+		go func() { warmDone <- rig.Safe(func() error { sys.RunUntil(c.Target, 1); return nil }) }()
+		select {
+		case p := <-warmDone:
+			if p != nil {
+				return fmt.Errorf("warm-up RunUntil($%06X, 1) panicked: %v", c.Target, p)
+			}
+		case <-time.After(30 * time.Second):
+			err := fmt.Errorf("RunUntil($%06X, 1) did not return within 30 s (a budget of one cycle allows one instruction)", c.Target)
+			if c12OnHang != nil {
+				c12OnHang(c, err)
+			}
+			return err
 		}
 		for w, n := range wantWarm {
 			if gotWarm[w] != n {
@@ -295,7 +309,11 @@ func c12RunCheck(c c12RunCase) error {
 	select {
 	case <-done:
 	case <-time.After(30 * time.Second):
-		return fmt.Errorf("RunUntil($%06X, %d) did not return within 30 s (budget is at most %d iterations)", c.Target, c.Max, c.Max)
+		err := fmt.Errorf("RunUntil($%06X, %d) did not return within 30 s (budget is at most %d iterations)", c.Target, c.Max, c.Max)
+		if c12OnHang != nil {
+			c12OnHang(c, err) // does not return: the stuck goroutine keeps a core busy, nothing else can be trusted to finish
+		}
+		return err
 	}
 	sys.Logger = nil
 	sys.CPU.OnPC, sys.CPU.OnWDM = nil, nil
@@ -512,6 +530,8 @@ func TestC12(t *testing.T) {
 			}
 			twin, _ := cpus()
 			var cut int64
+			c12OnHang = func(c c12RunCase, err error) { r.AbortViolation("run-hang", c, err) }
+			defer func() { c12OnHang = nil }()
 			r.Rapid("rununtil", rig.Pick(40000, 150000), func(t *rapid.T) {
 				d := rig.RapidDrawer{T: t}
 				syn := rig.NewSynth(d, nil)
